@@ -1,0 +1,78 @@
+//go:build verif
+
+package selector
+
+// Read-only structural dump of a parsed selector, for the /verif C05
+// correspondence check (the concrete selector types are unexported).
+
+// VerifSel is a neutral tree describing a parsed selector.
+// Kind is one of: tag, class, id, attr, rel, nth, only, input, empty, root,
+// link, lang, enabled, disabled, checked, never, compound, combined,
+// and, for the regular expression / text extensions, "unsupported".
+type VerifSel struct {
+	Kind  string
+	Strs  []string // tag | class | id | key,val,operation | name | lang | value | pseudoElement | combinator
+	Ints  []int    // a, b
+	Bools []bool   // ignoreCase | last, ofType | ofType
+	Kids  []VerifSel
+}
+
+func VerifDumpGroup(g SelectorGroup) []VerifSel {
+	out := make([]VerifSel, len(g))
+	for i, s := range g {
+		out[i] = VerifDump(s)
+	}
+	return out
+}
+
+func VerifDump(s Sel) VerifSel {
+	switch s := s.(type) {
+	case tagSelector:
+		return VerifSel{Kind: "tag", Strs: []string{s.String()}}
+	case classSelector:
+		return VerifSel{Kind: "class", Strs: []string{s.class}}
+	case idSelector:
+		return VerifSel{Kind: "id", Strs: []string{s.id}}
+	case attrSelector:
+		if s.operation == "#=" {
+			return VerifSel{Kind: "unsupported", Strs: []string{"attr#="}}
+		}
+		return VerifSel{Kind: "attr", Strs: []string{s.key, s.val, s.operation}, Bools: []bool{s.ignoreCase}}
+	case relativePseudoClassSelector:
+		return VerifSel{Kind: "rel", Strs: []string{s.name}, Kids: VerifDumpGroup(s.match)}
+	case nthPseudoClassSelector:
+		return VerifSel{Kind: "nth", Ints: []int{s.a, s.b}, Bools: []bool{s.last, s.ofType}}
+	case onlyChildPseudoClassSelector:
+		return VerifSel{Kind: "only", Bools: []bool{s.ofType}}
+	case inputPseudoClassSelector:
+		return VerifSel{Kind: "input"}
+	case emptyElementPseudoClassSelector:
+		return VerifSel{Kind: "empty"}
+	case rootPseudoClassSelector:
+		return VerifSel{Kind: "root"}
+	case linkPseudoClassSelector:
+		return VerifSel{Kind: "link"}
+	case langPseudoClassSelector:
+		return VerifSel{Kind: "lang", Strs: []string{s.lang}}
+	case enabledPseudoClassSelector:
+		return VerifSel{Kind: "enabled"}
+	case disabledPseudoClassSelector:
+		return VerifSel{Kind: "disabled"}
+	case checkedPseudoClassSelector:
+		return VerifSel{Kind: "checked"}
+	case neverMatchSelector:
+		return VerifSel{Kind: "never", Strs: []string{s.value}}
+	case compoundSelector:
+		return VerifSel{Kind: "compound", Strs: []string{s.pseudoElement}, Kids: VerifDumpGroup(s.selectors)}
+	case combinedSelector:
+		if s.first == nil || s.second == nil {
+			return VerifSel{Kind: "unsupported", Strs: []string{"combined-nil"}}
+		}
+		return VerifSel{Kind: "combined", Strs: []string{string(s.combinator)}, Kids: []VerifSel{VerifDump(s.first), VerifDump(s.second)}}
+	case containsPseudoClassSelector:
+		return VerifSel{Kind: "unsupported", Strs: []string{"contains"}}
+	case regexpPseudoClassSelector:
+		return VerifSel{Kind: "unsupported", Strs: []string{"matches"}}
+	}
+	return VerifSel{Kind: "unsupported", Strs: []string{"?"}}
+}
